@@ -122,6 +122,9 @@ func (c *Ctx) Violate(api, clause, shape string, cas interface{}, choices []int,
 			cas = f()
 		}
 		v := core.Violation{Property: c.S.Property, API: api, Clause: clause, Shape: shape, Case: core.J(cas), Choices: append([]int(nil), choices...), Detail: detail}
+		if len(choices) == 0 {
+			v.GoTest = goTestFor(c.S.Property, v.Case, detail)
+		}
 		c.S.Violations = append(c.S.Violations, v)
 	}
 	if c.Replay {
